@@ -103,6 +103,15 @@ fn fields_decl(fields: &[Field], shape: Shape, u: &Universe, public: bool) -> St
 
 /// The definition itself, as the user of minicbor-derive would write it.
 pub fn def_source(d: &Def, u: &Universe) -> String {
+    let s = def_source_a(d, u);
+    // the name of the lifetime parameter is the user's choice (the harness-side impls refer to it by position): every third
+    // definition spells it differently, including the name serde users are used to
+    let alt = ["'a", "'input", "'de"][d.name().bytes().map(|b| b as usize).sum::<usize>() % 3];
+    if alt == "'a" { return s }
+    s.replace("<'a>", &format!("<{}>", alt)).replace("<'a, ", &format!("<{}, ", alt)).replace("&'a ", &format!("&{} ", alt))
+}
+
+fn def_source_a(d: &Def, u: &Universe) -> String {
     let mut s = String::new();
     match d {
         Def::Struct(st) => {
